@@ -547,7 +547,442 @@ class C18(SpecProp):
                   'surviving path; with_state starts fresh and leaves the outer inspector untouched; real inspector compared')
 
 
-PROPS = {p.name: p for p in [C01(), ALL(), C04(), C02(), C03(), C05(), C08(), C15(), C18()]}
+
+import re as _re
+import functools
+from vcheck import expand_inputs
+
+
+@functools.lru_cache(maxsize=64)
+def _inputs_of(spec):
+    return expand_inputs(spec.split())
+
+
+def input_of(line, k):
+    return _inputs_of(line.partition(' I ')[2])[k]
+
+
+def utf8w(c):
+    return 1 if c < 0x80 else 2 if c < 0x800 else 3 if c < 0x10000 else 4
+
+
+def offsets(kind, toks):
+    """offset of every token index (0..len) in the input's own units"""
+    offs = [0]
+    for t in toks:
+        offs.append(offs[-1] + (utf8w(t) if kind == 'str' else 1))
+    return offs
+
+
+_ERR = _re.compile(r'\{(\d+)-(\d+);(E\[([^\]]*)\]F(\d+|-)|C(\d+));([^}]*)\}')
+
+
+def parse_err(e):
+    m = _ERR.match(e)
+    if not m:
+        return None
+    d = {'start': int(m.group(1)), 'end': int(m.group(2)), 'ctx': m.group(7)}
+    if m.group(6) is not None:
+        d['custom'] = m.group(6)
+    else:
+        d['expected'] = m.group(4)
+        d['found'] = None if m.group(5) == '-' else int(m.group(5))
+    return d
+
+
+class C06(Prop):
+    name = 'C06'; module = 'C06'; claimed = True
+    title = 'primary error = furthest failure, merged expectations, truthful span'
+    bins = ALL.bins
+    rule = ('C01/C02 streams without negative lookahead, every rejected input scored, each grammar under all four error types; '
+            'observation = last reported error (span, found, expected set, reason kind); non-trivial = backtracking grammar and '
+            'non-empty input')
+    level_text = ('theorem: the pending error is (up to the order of expected) the fold of the code\'s priority rule over ALL failure '
+                  'events logged during the run, hence lies at the furthest event, carries the union of expectations there / the first '
+                  'custom error; kind simulation: Cheap, Simple and Rich report the same spans; the real crate\'s last error is compared '
+                  'with the model\'s and with the summary of the model\'s event log, spans/found checked against the input, and the three '
+                  'error types against each other')
+
+    def cases(self, tier, seed):
+        items = stream_items(tier, seed, ['c01', 'c02'])
+        items = [it for it in items if 'not' not in gen.ops_of(it[0])]
+        rng = random.Random(seed)
+        rng.shuffle(items)
+        items = items[:2500 if tier == 'quick' else 25000]
+        lines = []
+        for n, (g, inputs, kw) in enumerate(items):
+            kind = 'str' if n % 2 == 0 else 'slice'
+            for ek in ('rich', 'simple', 'cheap', 'empty'):
+                lines.append(case_line(f'k{n}{ek[0]}', g, inputs, kind=kind, ek=ek))
+        return lines
+
+    def group_of(self, line):
+        return line.split(' ', 1)[0][:-1]
+
+    def check_chunk(self, by_id, impl, model, stats, fails):
+        for key, mo in model.items():
+            if key == '__bad__':
+                continue
+            cid, _, k = key.rpartition('.')
+            if not cid.endswith('r'):
+                continue
+            k = int(k)
+            line = by_id.get(cid)
+            kind = line.split(' ', 4)[2]
+            obs = {}
+            for ek in 'rsce':
+                kk = f'{cid[:-1]}{ek}.{k}'
+                obs[ek] = (impl.get(kk, {}).get('M'), model.get(kk, {}).get('M'))
+            stats['pairs'] += 4
+            if any(o[0] is None for o in obs.values()):
+                fails.append(('missing', line, k, 'no implementation observation'))
+                continue
+            P = {ek: parse_M(o[0]) for ek, o in obs.items()}
+            why = []
+            # acceptance identical under all four error types
+            acc = {ek: (p['kind'], p.get('out') is not None) for ek, p in P.items()}
+            if len(set(acc.values())) != 1:
+                why.append(f'acceptance depends on the error type: {acc}')
+            r = P['r']
+            oc = r['kind'] + ('+' if r.get('out') is not None else '-')
+            stats['outcomes'][oc] = stats['outcomes'].get(oc, 0) + 1
+            if r['kind'] == 'R' and r['out'] is None and r['errs']:
+                toks = input_of(line, k)
+                offs = offsets(kind, toks)
+                e = parse_err(r['errs'][-1])
+                total = offs[-1]
+                if e is None:
+                    why.append('unparsable error ' + r['errs'][-1])
+                else:
+                    if not (0 <= e['start'] <= e['end'] <= total):
+                        why.append(f'span {e["start"]}..{e["end"]} not inside the input (0..{total}) / inverted')
+                    if 'expected' in e:
+                        if e['start'] in offs:
+                            i = offs.index(e['start'])
+                            tok = toks[i] if i < len(toks) else None
+                            if e['found'] != tok:
+                                why.append(f'found={e["found"]} but the token at the start of the span is {tok}')
+                        else:
+                            why.append('span start is not on a token boundary')
+                    # Cheap / Simple / Rich agree on the span
+                    spans = {}
+                    for ek in 'rsc':
+                        pe = parse_err(P[ek]['errs'][-1]) if P[ek].get('errs') else None
+                        spans[ek] = (pe['start'], pe['end']) if pe else None
+                    if len(set(spans.values())) != 1:
+                        why.append(f'span depends on the error type: {spans}')
+                    # furthest failure / union of expectations: against the summary of the model's event log
+                    x = model.get(f'{cid}.{k}', {}).get('X')
+                    if x and x != 'none':
+                        xp, xspan, xdesc = x.split(' ', 2)
+                        if int(xp) != e['start'] and 'expected' in e:
+                            why.append(f'primary error at offset {e["start"]} but the furthest failure event is at {xp}')
+                        got = ('C' + e['custom']) if 'custom' in e else 'E[' + e['expected'] + ']'
+                        if got != xdesc and (int(xp) == e['start']):
+                            why.append(f'description {got} differs from the merge of the failure events at the furthest position {xdesc}')
+            corr = all(o[0] == o[1] for o in obs.values())
+            if is_nontrivial(line, k, None):
+                stats['nontrivial'] += 4
+            if why:
+                stats['pred_fail'] += 1
+                if len(fails) < 200:
+                    fails.append(('pred', line, k, '; '.join(why) + f' || impl: {obs["r"][0]} || model: {obs["r"][1]}'))
+            elif not corr:
+                stats['corr_disagree'] += 1
+                if len(fails) < 200:
+                    bad = [ek for ek, o in obs.items() if o[0] != o[1]][0]
+                    fails.append(('corr', by_id.get(cid[:-1] + bad), k, f'impl: {obs[bad][0]} || model: {obs[bad][1]}'))
+            elif len(stats['samples']) < 2 and r.get('out') is None and k > 2:
+                stats['samples'].append({'case': grammar_of(line), 'input_index': k, 'rich': obs['r'][0], 'cheap': obs['c'][0]})
+
+
+def erase_deco(g):
+    """python mirror of G.eraseDeco, except that decorations are simply removed"""
+    if g[0] in ('label',):
+        return erase_deco(g[3])
+    if g[0] == 'maperr':
+        return erase_deco(g[2])
+    return gen.replace_children(g, erase_deco)
+
+
+class C17(Prop):
+    name = 'C17'; module = 'C17'; claimed = True
+    title = 'labels and map_err change how a failure is described, never whether or where'
+    rule = ('C01-class grammars with labelled / labelled.as_context / map_err inserted at one or two node positions, each compared '
+            'with the undecorated grammar on all inputs; observation = acceptance, output, number of errors and all error spans')
+    level_text = ('simulation theorem decorated ~ undecorated (equal up to error descriptions) for every grammar; labels/contexts of the '
+                  'real crate compared with the model; acceptance, outputs, error counts and spans of decorated vs plain compared on the '
+                  'real crate')
+
+    def cases(self, tier, seed):
+        rng = random.Random(seed)
+        by = gen.enum_by_size(3, gen.C01_LEAVES, gen.C01_UNARIES, gen.C01_BINARIES, gen.C01_TERNARIES)
+        base = [g for s in (2, 3) for g in by[s]]
+        rng.shuffle(base)
+        base = base[:700 if tier == 'quick' else 6000]
+        inp = inputs_all(4, [gen.A, gen.B, gen.EA]) + ' ' + inputs_all(2, [gen.A, gen.CLEF])
+        lines = []
+        n = 0
+        for g in base:
+            decorated = []
+            for w in gen.DECORATIONS:
+                ds = gen.insert_at_nodes(g, w)
+                decorated.extend(ds)
+                for d in ds[:2]:
+                    decorated.extend(gen.insert_at_nodes(d, rng.choice(gen.DECORATIONS))[:2])
+            for d in decorated:
+                kind = 'str' if n % 2 == 0 else 'slice'
+                lines.append(case_line(f'd{n}p', d, inp, kind=kind))
+                lines.append(case_line(f'd{n}c', erase_deco(d), inp, kind=kind))
+                n += 1
+        return lines
+
+    def group_of(self, line):
+        return line.split(' ', 1)[0][:-1]
+
+    def check_chunk(self, by_id, impl, model, stats, fails):
+        for key, mo in model.items():
+            if key == '__bad__' or not key.rpartition('.')[0].endswith('p'):
+                continue
+            cid, _, k = key.rpartition('.')
+            cid_c = cid[:-1] + 'c'
+            line = by_id.get(cid)
+            ip = impl.get(key, {}).get('M')
+            ic = impl.get(cid_c + '.' + k, {}).get('M')
+            mp = mo.get('M')
+            mc = model.get(cid_c + '.' + k, {}).get('M')
+            stats['pairs'] += 2
+            if ip is None or ic is None:
+                fails.append(('missing', line, int(k), 'no implementation observation'))
+                continue
+            a, b = parse_M(ip), parse_M(ic)
+
+            def shape(m):
+                if m['kind'] != 'R':
+                    return (m['kind'], m.get('site'))
+                return ('R', m['out'], tuple(err_span_of(e) for e in m['errs']))
+            pred = shape(a) == shape(b)
+            corr = (ip == mp) and (ic == mc)
+            oc = a['kind'] + ('+' if a.get('out') is not None else '-')
+            stats['outcomes'][oc] = stats['outcomes'].get(oc, 0) + 1
+            if is_nontrivial(line, int(k), None):
+                stats['nontrivial'] += 2
+            if not pred:
+                stats['pred_fail'] += 1
+                if len(fails) < 200:
+                    fails.append(('pred', line, int(k), f'decorated and plain differ in acceptance / output / error count / spans || decorated: {ip} || plain: {ic}'))
+            elif not corr:
+                stats['corr_disagree'] += 1
+                if len(fails) < 200:
+                    fails.append(('corr', line, int(k), f'impl: {ip} / {ic} || model: {mp} / {mc}'))
+            elif len(stats['samples']) < 2 and int(k) > 3 and a.get('out') is None:
+                stats['samples'].append({'case': grammar_of(line), 'input_index': int(k), 'decorated': ip, 'plain': ic})
+
+
+def err_span_of(e):
+    pe = parse_err(e)
+    return (pe['start'], pe['end']) if pe else e
+
+
+class C20(Prop):
+    name = 'C20'; module = 'C20'; claimed = True
+    title = 'parsing is total'
+    bins = ALL.bins
+    rule = ('union of all streams (C01, repetition incl. nullable items, emitters, recovery, decorations, context, state, four error '
+            'kinds) on exhaustive small inputs, plus malformed inputs: random strings over the full Unicode range incl. combining marks, '
+            'surrogate-adjacent and 4-byte characters, long inputs; every case under catch_unwind and a wall-clock watchdog; '
+            'observation = returned / panic(site) / hang')
+    level_text = ('theorems: a failing run always leaves a pending error (the "can\'t fail" unwraps never fire), well-formed grammars never '
+                  'panic, fuel bound for non-recursive well-formed grammars (Lean); every case of every stream plus malformed inputs run '
+                  'against the real crate under catch_unwind + watchdog and compared with the model')
+
+    def cases(self, tier, seed):
+        rng = random.Random(seed)
+        items = stream_items(tier, seed, ['c01', 'c02', 'emit', 'rec', 'deco', 'ctx', 'state', 'ek'])
+        rng.shuffle(items)
+        items = items[:9000 if tier == 'quick' else 60000]
+        lines = []
+        pool = [0x61, 0x62, 0xe9, 0x301, 0x1D11E, 0x10FFFF, 0xD7FF, 0xE000, 0x0, 0x200D, 0xFEFF, 0x1F600, 0x20, 0x0A, 0x0D, 0x2C]
+        for n, (g, inputs, kw) in enumerate(items):
+            kw = dict(kw)
+            kind = kw.pop('kind', 'str' if n % 2 == 0 else 'slice')
+            extra = []
+            for _ in range(4):
+                ln = rng.choice([0, 1, 2, 3, 5, 8, 13, 40])
+                toks = [rng.choice(pool) if rng.random() < 0.7 else rng.choice([gen.A, gen.B, gen.COMMA, gen.EA]) for _ in range(ln)]
+                extra.append(inputs_lit(toks))
+            tag = 'w' if ill_formed_items(g) else 's'
+            lines.append(case_line(f'{tag}{n}', g, inputs + ' ' + ' '.join(extra), kind=kind, **kw))
+        return lines
+
+    def compare(self, line, k, impl_M, model_M, spec_S):
+        im, mm = parse_M(impl_M), parse_M(model_M)
+        corr = proj_total(im) == proj_total(mm)
+        pred = True
+        why = ''
+        if im['kind'] != 'R':
+            # a panic is admissible only as the documented debug assertion on a repetition whose item consumed nothing
+            if not (im['kind'] == 'P' and im.get('site') == 'no-progress' and line.startswith('w')):
+                pred = False
+                why = f'did not return a ParseResult: {impl_M}'
+        elif im['out'] is None and not im['errs']:
+            pred = False
+            why = 'failure not reported through the error list'
+        return {'corr': corr, 'pred': pred, 'why': why, 'outcome': im['kind'] + (':' + im.get('site', '') if im['kind'] == 'P' else ''),
+                'nontrivial': is_nontrivial(line, k, None)}
+
+
+def proj_total(m):
+    if m['kind'] == 'R':
+        return ('R', m['out'] is not None, len(m['errs']))
+    return (m['kind'], m.get('site'))
+
+
+def ill_formed_items(g):
+    """a repetition whose item may succeed without consuming (the debug assertions may fire)"""
+    for t in gen.subterms(g):
+        if t[0] in ('rep', 'sep') and t[1] in gen.C02_NULLABLE_ITEMS:
+            return True
+    return False
+
+
+
+def erase_memo(g):
+    if g[0] == 'memo':
+        return erase_memo(g[2])
+    return gen.replace_children(g, erase_memo)
+
+
+def memo_variants(g, rng, maxn=3):
+    """g with memoized() inserted at 1..maxn node positions (incl. nested / adjacent), distinct ids"""
+    out = []
+    counter = [100]
+
+    def w(a):
+        counter[0] += 1
+        return ('memo', counter[0], a)
+    singles = gen.insert_at_nodes(g, w)
+    out.extend(singles)
+    for s1 in singles[:3]:
+        doubles = gen.insert_at_nodes(s1, w)
+        rng.shuffle(doubles)
+        out.extend(doubles[:2])
+        for s2 in doubles[:1]:
+            triples = gen.insert_at_nodes(s2, w)
+            rng.shuffle(triples)
+            out.extend(triples[:1])
+    return out
+
+
+LEFT_REC = [
+    # expr = (expr op atom).memoized() | atom
+    ([('or', ('memo', 1, ('then', ('call', 0), ('then', ('just', [43]), ('just', [120])))), ('just', [120]))], ('call', 0)),
+    # expr = (expr atom).memoized() | atom   (juxtaposition), collected through map
+    ([('or', ('memo', 1, ('map', ('tag', 3), ('then', ('call', 0), ('oneof', [120, 121])))), ('oneof', [120, 121]))], ('call', 0)),
+    # indirect left recursion through a second definition
+    ([('or', ('memo', 1, ('then', ('call', 1), ('just', [43]))), ('just', [120])), ('or', ('call', 0), ('just', [121]))], ('call', 0)),
+]
+
+
+class C11(Prop):
+    name = 'C11'; module = 'C11'; claimed = True
+    title = 'memoization is transparent and makes left recursion terminate'
+    rule = ('C01/C02-class grammars with memoized() inserted at one to three node positions (nested and adjacent placements, distinct '
+            'parsers), memoized parsers under recover_with / map_err / labelled, shared through recursive definitions; each compared '
+            'with the unmemoized grammar on all inputs; left-recursive families on all inputs up to the bound; the address-collision '
+            'shapes (memoized().memoized(), adjacent zero-sized memoized parsers) as known findings')
+    level_text = ('memo table model with parser ids; correspondence of full results (incl. errors) between the real crate and the model '
+                  'with memoization on; memoized vs plain compared on the real crate; left-recursive family under watchdog')
+
+    def cases(self, tier, seed):
+        rng = random.Random(seed)
+        by = gen.enum_by_size(3, gen.C01_LEAVES, gen.C01_UNARIES, gen.C01_BINARIES, gen.C01_TERNARIES)
+        base = [g for s in (2, 3) for g in by[s]]
+        rng.shuffle(base)
+        base = base[:900 if tier == 'quick' else 8000]
+        its = gen.c02_iterators(gen.C02_ITEMS[:3], gen.C02_SEPS[:1], [(0, None), (1, 2)])
+        rng.shuffle(its)
+        for it in its[:60 if tier == 'quick' else 400]:
+            base.extend(gen.c02_consumers(it)[:4])
+        inp = inputs_all(4, [gen.A, gen.B, gen.EA]) + ' ' + inputs_all(5, [gen.A, gen.COMMA])
+        lines = []
+        n = 0
+        for g in base:
+            vs = memo_variants(g, rng)
+            wrapped = []
+            for v in vs[:2]:
+                for w in gen.RECOVERIES[:2] + gen.DECORATIONS:
+                    wrapped.extend(gen.insert_at_nodes(v, w, pred=lambda t: t[0] == 'memo')[:1])
+            for v in vs + wrapped:
+                kind = 'str' if n % 2 == 0 else 'slice'
+                lines.append(case_line(f'm{n}p', v, inp, kind=kind))
+                lines.append(case_line(f'm{n}c', erase_memo(v), inp, kind=kind))
+                n += 1
+        # shared parser objects through definitions
+        for g in base[:150]:
+            d = ('memo', 50, g)
+            main = ('then', ('ornot', ('call', 0)), ('or', ('call', 0), ('any',)))
+            lines.append(case_line(f'm{n}p', main, inp, defs=[d]))
+            lines.append(case_line(f'm{n}c', main, inp, defs=[erase_memo(d)]))
+            n += 1
+        # left recursion: must terminate (no plain counterpart: the unmemoized grammar overflows the stack)
+        linp = inputs_all(6 if tier == 'quick' else 8, [120, 43, 121])
+        for i, (defs, main) in enumerate(LEFT_REC):
+            lines.append(case_line(f'l{i}p', main, linp, defs=defs, fuel=60))
+        # address collisions (known findings D9 / D10)
+        for i, a in enumerate(gen.C01_LEAVES[:8]):
+            lines.append(case_line(f'z{i}p', ('memonest', 9, a), inp))
+            lines.append(case_line(f'z{i}c', a, inp))
+        lines.append(case_line('y0p', ('memozst', 7), inp))
+        lines.append(case_line('y0c', ('to', ('vunit',), ('or', ('ignored', ('any',)), ('end',))), inp))
+        return lines
+
+    def group_of(self, line):
+        return line.split(' ', 1)[0][:-1]
+
+    def check_chunk(self, by_id, impl, model, stats, fails):
+        for key, mo in model.items():
+            if key == '__bad__' or not key.rpartition('.')[0].endswith('p'):
+                continue
+            cid, _, k = key.rpartition('.')
+            line = by_id.get(cid)
+            ip = impl.get(key, {}).get('M')
+            mp = mo.get('M')
+            stats['pairs'] += 1
+            if ip is None:
+                fails.append(('missing', line, int(k), 'no implementation observation (hang / crash?)'))
+                continue
+            a = parse_M(ip)
+            oc = a['kind'] + ('+' if a.get('out') is not None else '-')
+            stats['outcomes'][oc] = stats['outcomes'].get(oc, 0) + 1
+            if is_nontrivial(line, int(k), None):
+                stats['nontrivial'] += 1
+            if cid.startswith('l'):
+                pred = a['kind'] == 'R'
+                why = 'left-recursive memoized grammar did not return a result'
+                corr = ip == mp
+                ic = mc = None
+            else:
+                cid_c = cid[:-1] + 'c'
+                ic = impl.get(cid_c + '.' + k, {}).get('M')
+                mc = model.get(cid_c + '.' + k, {}).get('M')
+                stats['pairs'] += 1
+                pred = ip == ic
+                why = 'memoized and plain grammar give different results'
+                corr = (ip == mp) and (ic == mc)
+            if not pred:
+                stats['pred_fail'] += 1
+                if len(fails) < 200:
+                    fails.append(('pred', line, int(k), f'{why} || memoized: {ip} || plain: {ic}'))
+            elif not corr:
+                stats['corr_disagree'] += 1
+                if len(fails) < 200:
+                    fails.append(('corr', line, int(k), f'impl: {ip} / {ic} || model: {mp} / {mc}'))
+            elif len(stats['samples']) < 2 and int(k) > 3:
+                stats['samples'].append({'case': grammar_of(line), 'input_index': int(k), 'memoized': ip, 'plain': ic})
+
+
+PROPS = {p.name: p for p in [C01(), ALL(), C04(), C02(), C03(), C05(), C08(), C15(), C18(), C06(), C17(), C20(), C11()]}
 for _s in ['c01', 'c02', 'emit', 'rec', 'deco', 'ctx', 'ek', 'state']:
     PROPS['ALL_' + _s] = ALL([_s])
     PROPS['ALL_' + _s].name = 'ALL_' + _s
